@@ -8,8 +8,19 @@ import urlgen
 
 ID = "C01"
 LEAN_MODULE = "UralModel.Props.C01"
-THEOREMS = []
-TABLE_OBLIGATIONS = []
+THEOREMS = [
+    "Ural.Props.C01.canon_scheme",
+    "Ural.Props.C01.canon_userinfo",
+    "Ural.Props.C01.canon_host",
+    "Ural.Props.C01.canon_port",
+    "Ural.Props.C01.canon_query",
+    "Ural.Props.C01.canon_fragment",
+    "Ural.Props.C01.canon_no_new_delimiter",
+    "Ural.Props.C01.canon_quoted_no_delimiter",
+    "Ural.Canonicalize.canonHost_idem",
+    "Ural.Canonicalize.punyLaws_id",
+]
+TABLE_OBLIGATIONS = ["Ural.Props.C01.tables_percent", "Ural.Props.C01.tables_delims"]
 RULE = (
     "A case is a URL (built from structured components over the token alphabet of the "
     "quantifier, or a raw odd string) x quoted x strip_fragment, default_protocol=https (a "
@@ -34,7 +45,11 @@ TRUSTED = [
     "str.lower / str.strip on non-ASCII characters outside the model alphabet (DESIGN §4) are not modelled",
 ]
 ASSUMPTIONS = ["URLs that the parser rejects (ValueError) are outside the property"]
-UNPROVED = ""
+UNPROVED = (
+    "path clause (same resolved decoded segments and trailing slash) is not yet a theorem: it is "
+    "checked by the oracle on every case and by the model-vs-implementation comparison; re-parsing of "
+    "the printed URL is CPython's urlsplit (oracle re-parses the real output)"
+)
 OPTS = [(False, False), (True, False), (False, True), (True, True)]
 
 
